@@ -421,6 +421,78 @@ def union_trees(depth_, leaves):
 
 
 # ---------------------------------------------------------------------------------------
+# families with REPEATED subformulas (memo tables, fresh-atom tables and caches keyed by a
+# printed form are exercised only when the same subformula occurs several times, under
+# different polarities or different quantifiers)
+
+def skeletons():
+    """Propositional skeletons over a slot x that occurs at least twice, under both polarities,
+    and a second slot y."""
+    return [
+        lambda x, y: ('imp', x, ('and', x, y)),
+        lambda x, y: ('not', ('and', x, ('not', ('or', x, y)))),
+        lambda x, y: ('and', ('or', x, y), ('not', x)),
+        lambda x, y: ('or', ('not', x), ('and', y, x)),
+        lambda x, y: ('imp', ('imp', x, y), x),
+        lambda x, y: ('and', ('not', ('and', x, y)), ('or', x, y)),
+        lambda x, y: ('or', ('and', x, y), ('and', ('not', x), ('not', y))),
+        lambda x, y: ('imp', x, x),
+        lambda x, y: ('and', x, ('not', x)),
+        lambda x, y: ('not', ('imp', ('not', x), ('and', y, ('not', x)))),
+        lambda x, y: ('and', x, y, ('not', x)),
+        lambda x, y: ('or', ('not', y), x, ('not', x)),
+    ]
+
+
+def repeated_family(xs, ys, wraps):
+    out = []
+    for x in xs:
+        for y in ys:
+            for sk in skeletons():
+                body = sk(x, y)
+                for w in wraps:
+                    out.append(w(body))
+    return out
+
+
+def ltl_repeated():
+    """LTL path formulas with a repeated temporal subformula (360)."""
+    # kept to <= 3 distinct temporal subformulas: the tableau under test is exponential
+    xs = [('F', P), ('G', P), ('U', P, Q), ('R', P, Q), ('X', P)]
+    ys = [Q, ('X', Q)]
+    wraps = [lambda b: b, lambda b: ('G', b), lambda b: ('X', b)]
+    return repeated_family(xs, ys, wraps)
+
+
+def ctl_repeated():
+    """CTL state formulas with a repeated quantified subformula."""
+    xs = [(q, (o, P)) for q in 'AE' for o in 'XFG'] + [(q, (o, P, Q)) for q in 'AE' for o in 'UR']
+    ys = [Q, ('E', ('X', Q)), ('A', ('G', Q))]
+    wraps = [lambda b: b, lambda b: ('E', ('X', b)), lambda b: ('A', ('G', b)), lambda b: ('E', ('F', b)),
+             lambda b: ('E', ('U', Q, b)), lambda b: ('not', ('A', ('F', b)))]
+    return repeated_family(xs, ys, wraps)
+
+
+def ctls_siblings():
+    """CTL* state formulas in which the SAME non-CTL path formula g is quantified twice, by the
+    same or by different quantifiers, as siblings in a Boolean combination, at top level and under an
+    outer quantifier + temporal operator (1 344 formulas)."""
+    gs = [('G', ('imp', P, ('F', Q))), ('F', ('G', P)), ('G', ('F', P)), ('U', ('X', P), Q), ('U', P, ('X', Q)),
+          ('F', ('and', P, ('X', Q))), ('G', ('or', P, ('X', Q))), ('X', ('X', P))]
+    bools = [lambda a, b: ('and', a, b), lambda a, b: ('or', a, b), lambda a, b: ('and', ('not', a), b),
+             lambda a, b: ('and', a, ('not', b)), lambda a, b: ('imp', a, b), lambda a, b: ('or', ('not', a), ('not', b))]
+    outers = [lambda f: f] + [(lambda f, q0=q0, t0=t0: (q0, (t0, f))) for q0 in 'AE' for t0 in 'FGX']
+    out = []
+    for g in gs:
+        for q1 in 'AE':
+            for q2 in 'AE':
+                for bo in bools:
+                    for w in outers:
+                        out.append(w(bo((q1, g), (q2, g))))
+    return out
+
+
+# ---------------------------------------------------------------------------------------
 # Hypothesis strategies (construction, no filtering)
 
 def st_formula(kind_, atoms_=('p', 'q'), max_depth=4, max_temporal=None, nary=True,
